@@ -4,6 +4,11 @@ import json, os
 V = os.path.dirname(os.path.dirname(os.path.abspath(__file__)))
 
 CHECKS = {
+    "C19": dict(
+        text="Coq theorems over an explicit heap of mutable maps and immutable contexts, for EVERY sequence of build-map / add-tags / read-tags / mutate-any-client-held-map operations: no map stored in a context is ever one the client holds, the tags seen through every previously derived context never change, a new context sees parent-extended-by-added, a read is a copy; both ways of omitting a copy are refuted with witnesses; the rule for which tags travel (context tags joined by selected context values for calls, context tags only for notifications, none when empty). The extracted heap model is run against AddRPCTagsToContext / TagsFromContext on all derivation sequences up to a bound plus random longer ones, and the frames written by the real client for calls, compressed calls and notifications are compared with the model's traveling tags.",
+        note="Trusted: Coq kernel, extraction + OCaml glue, Go harness. The two copy facts are regenerated from context.go's order census (tcfg_generated_ok). Delivery into the handler's context is covered by C01/C02 (decode side).",
+        technique="Coq proof (heap invariant over all operation sequences; refutation of the aliasing variants) + extracted-model differential correspondence",
+        design="6/C19"),
     "C20": dict(
         text="Coq theorems about the record state machine of instrument.go: exactly one Put however often and in whatever order a record is finished, a second finish refused, stored size = sum of what was added before the first finish. The extracted machine is run against NetworkInstrumenter on random operation lists; and mixes of answered / cancelled / timed-out / refused / interrupted calls, compressed calls (with compressed replies), notifications and served calls run on the real transport with a recording storage: every operation whose frame was written must have exactly one record under '<Type> <method>' whose Size equals the bytes of its frame plus, when received before the finish, the payload length of the peer's matching frame (sizes recomputed from the raw frames of the event log).",
         note="PARTIAL: that every way an RPC can end reaches exactly one RecordAndFinish is checked on the implementation (histories), not proved about a model of dispatch.go/request.go. Trusted: Coq kernel, extraction + OCaml glue, Go harness.",
